@@ -1,6 +1,10 @@
 """C04 — Verilog write-then-read (writer kernel lemma)."""
 
 ASSUMPTIONS = [
+    "E1, writer alone (a necessary condition of write-then-read): on the fixture 'eblif-bus' (a two-bit port on a hierarchical cell, a "
+    "two-bit net, two leaf instances) the real verilog writer is run on TWO symbolic connection patterns; if all written texts are equal "
+    "(rope equality) then every instance pin and port pin sits on the same net bit in both -- two different netlists are never written as the "
+    "same text; port bits of a module are assumed joined inside the module (what the Verilog reader produces)",
     "lemma-level claim (E1): Composer._write_concatenation(wires) for every list of up to three entries drawn from a 3-bit bus "
     "(base index 0..4), a scalar net and None (unconnected): the part-selects it emits (recorded through a stub of "
     "_write_bundle_with_indicies), read the way the Verilog reader reads a range (bits max..min, most significant first, whatever the "
@@ -20,5 +24,5 @@ def jobs(tier):
     tmo = 200 if tier == "quick" else 900
     star = [e2job("C04", "c04", "h_attribute_list_roundtrip", tmo, tier,
                   {"VF_K": k, "VF_L": 2 if tier == "quick" else 3}, "[structure=%d]" % k) for k in range(1, 27)]
-    return star + [dict(name="C04/_write_concatenation", engine="E1/symheap", module="vf.e1.verilog_jobs",
+    return star + [dict(name="C04/verilog-writer-injective", engine="E1/symheap", module="vf.e1.compose_jobs", func="writer_injective_job", timeout=3000, args=dict(which="verilog", tier=tier))] + [dict(name="C04/_write_concatenation", engine="E1/symheap", module="vf.e1.verilog_jobs",
                  func="concatenation_job", timeout=1500, args=dict(tier=tier))]
